@@ -57,6 +57,8 @@ def run(ctx):
     R2 = rep.rule('C06.R2', 'only successful reloads write: write <- reload_untyped(Ok arm) <- DepsGraph::reload <- run_update <- 3 update entry points', floor=6)
     R3 = rep.rule('C06.R3', 'at most once per pass: visited check precedes the push; only visit writes the order; run_update clears the change set', floor=4)
     R4 = rep.rule('C06.R4', 'entries start at NEVER / false; static entries report NEVER / false', floor=5)
+    S2 = rep.rule('C07.R3', 'the reload id is bumped inside the write-guard region, after the value swap (shared with C07)', floor=5)
+    S3 = rep.rule('C07.R4', 'one writer (shared with C07)', floor=1)
     S1 = rep.rule('C09.R3', 'the dependency graph is updated exactly on a successful reload (shared with C09, C05)', floor=2)
     for cfg, F in ctx.cfgs():
         hr = 'hot-reloading' in ctx.cfg_features[cfg]
@@ -71,7 +73,11 @@ def run(ctx):
         # make a later notification of a dropped entry rewrite the asset although nothing it reads changed
         from c09 import r3 as relearn
         relearn(S1, cfg, F)
-        for r in (R1, R2, R3, S1):
+        # "a value read after a watcher reported a reload is at least as new as that reload": the id is bumped inside the
+        # write-guard region, after the swap
+        from c07 import r3 as writer_region
+        writer_region(S2, S3, cfg, F)
+        for r in (R1, R2, R3, S1, S2, S3):
             r.finish_cfg(cfg)
 
 
